@@ -127,11 +127,13 @@ class C12(Prop):
                 "reorderLikeFirst_dims", "reorderLikeFirst_error", "stack_spec", "stack_error_is_not_ok_of_label_mismatch",
                 "concatenate_labels", "concatenate_spec", "joinOffset_cover", "concatenate_refuses_mismatch", "concatenate_ok_secondary", "stack_noalign_spec", "stack_refuses_mismatch",
                 "stack_align_spec", "stack_align_value", "concatenate_align_spec"]
-    rule = ("lists and dicts of 1-4 arrays over one set of dimensions listed in the same or in a different order "
-            "(square shapes included so that a positional mix-up is shape-compatible), secondary axes equal / permuted / "
-            "overlapping / disjoint, int/float/str labels; stack with int/str keys and explicit / default axis name; "
-            "concatenate along every axis by name or position; align in {False, True} with sort in {False, True}. "
-            "Non-trivial = at least two arrays; distinct = canonical JSON")
+    rule = ("lists, tuples and dicts of 1-4 arrays of rank 0-3 over one set of dimensions listed in the same or in a different "
+            "order (square shapes included so that a positional mix-up is shape-compatible), secondary axes equal / permuted / "
+            "overlapping / disjoint, int/float/str labels, a share with a zero-length axis (on every input or on one), a share "
+            "carrying array- and axis-level metadata; stack with int/str/float keys given as list or ndarray, dict keys or "
+            "dict + explicit keys=, explicit / default axis name; concatenate (list / tuple) along every axis by name, "
+            "position, negative position or by default; align in {False, True} with sort in {False, True}, join='outer' "
+            "spelled out or left to default. Non-trivial = at least two arrays; distinct = canonical JSON")
     assumptions = ["labels unique per axis"]
 
     def mirrors(self):
@@ -140,9 +142,82 @@ class C12(Prop):
         return {"stack": al.stack, "concatenate": al.concatenate, "_check_stack_args": al._check_stack_args,
                 "_check_stack_axis": al._check_stack_axis, "_get_axes": al._get_axes, "_concatenate_axes": al._concatenate_axes}
 
+    def variants(self, rng, c):
+        """spellings and input families on top of a base case: metadata on arrays and axes, zero-length axes,
+        float / ndarray keys, dict + explicit keys=, tuple container and default axis for concatenate, join= through
+        the keyword arguments of align"""
+        arrays = c["arrays"]
+        if rng.random() < 0.4:
+            # metadata: per array, and per dimension (the same on every array)
+            c["with_attrs"] = True
+            for k, a in enumerate(arrays):
+                if rng.random() < 0.7:
+                    a["attrs_py"] = {"title": "A%d" % k, "n": k}
+                for ax in a["axes"]:
+                    if ax["name"] in ("x", "z") or rng.random() < 0.3:
+                        ax["attrs_py"] = {"units": "u" + ax["name"]}
+        r = rng.random()
+        dims = [ax["name"] for ax in arrays[0]["axes"]]
+        if r < 0.06 and dims:
+            # a dimension without labels on every array
+            d0 = rng.choice(dims)
+            for a in arrays:
+                for ax in a["axes"]:
+                    if ax["name"] == d0:
+                        ax["labels"] = []
+            c["zero"] = "all"
+        elif r < 0.12 and dims and len(arrays) > 1:
+            # ... or on one array only (fine along the concatenation axis, a mismatch along any other)
+            d0 = rng.choice(dims)
+            for ax in rng.choice(arrays)["axes"]:
+                if ax["name"] == d0:
+                    ax["labels"] = []
+            c["zero"] = "one"
+            if c["op"] == "stack" or (c["axis"][1] if c["axis"][0] == "name" else dims[c["axis"][1]]) != d0:
+                if c["_rel"] in ("equal", "nearly"):
+                    c["_rel"] = "overlapping"
+        if c["op"] == "stack":
+            k = len(arrays)
+            if c["keys"] is not None and rng.random() < 0.25:
+                # float keys
+                c["keys"] = [gen.enc(Fraction(v, 2)) for v in rng.sample(range(-3, 12), k)]
+                c["keykind"] = "f"
+            if c["keys"] is not None and c["container"] != "dict" and rng.random() < 0.3:
+                c["keys_as"] = "ndarray"
+            if c["keys"] is not None and c["container"] == "dict" and rng.random() < 0.4:
+                c["explicit_keys"] = True      # stack({...}, keys=[...]): the explicit keys label the new axis
+        else:
+            if rng.random() < 0.3:
+                c["container"] = "tuple"
+            if c["axis"] == ["pos", 0] and rng.random() < 0.6:
+                c["axis_default"] = True       # concatenate(arrays): axis=0
+        if c["align"] and rng.random() < 0.25:
+            c["join"] = "outer"                # the default join, spelled out
+        return c
+
     def gen(self, rng, tier):
         n = 800 if tier == "quick" else 20000
         for _ in range(n):
+            yield self.variants(rng, self.gen_base(rng))
+        m = 80 if tier == "quick" else 1500
+        for _ in range(m):
+            # 0-d inputs: stack makes a 1-d array labelled by the keys
+            k = rng.choice([1, 2, 3, 4])
+            arrays = [{"axes": [], "vkind": rng.choice(["f", "f", "i"])} for _ in range(k)]
+            keykind = rng.choice(["i", "O", "default"])
+            keys = None
+            if keykind == "i":
+                keys = [["n", v, 1] for v in rng.sample(range(0, 20), k)]
+            elif keykind == "O":
+                keys = [["s", v] for v in rng.sample(gen.STRS, k)]
+            doalign = rng.random() < 0.3
+            yield self.variants(rng, {"op": "stack", "arrays": arrays, "axis": rng.choice(["stk", "stk", None]), "keys": keys,
+                                      "keykind": "i" if keykind == "default" else keykind,
+                                      "container": rng.choice(["list", "list", "tuple", "dict"]),
+                                      "align": doalign, "sort": doalign and rng.random() < 0.4, "_rel": "equal"})
+
+    def gen_base(self, rng):
+        if True:
             k = rng.choice([1, 2, 2, 3, 4])
             arrays, rel = gen_same_dims(rng, k, square=rng.random() < 0.5)
             doalign = rng.random() < 0.35
@@ -153,45 +228,56 @@ class C12(Prop):
                     keys = [["n", v, 1] for v in rng.sample(range(0, 20), k)]
                 elif keykind == "O":
                     keys = [["s", v] for v in rng.sample(gen.STRS, k)]
-                yield {"op": "stack", "arrays": arrays, "axis": rng.choice(["stk", "stk", None]), "keys": keys,
-                       "keykind": "i" if keykind == "default" else keykind, "container": rng.choice(["list", "list", "tuple", "dict"]),
-                       "align": doalign, "sort": doalign and rng.random() < 0.4, "_rel": rel}
+                return {"op": "stack", "arrays": arrays, "axis": rng.choice(["stk", "stk", None]), "keys": keys,
+                        "keykind": "i" if keykind == "default" else keykind, "container": rng.choice(["list", "list", "tuple", "dict"]),
+                        "align": doalign, "sort": doalign and rng.random() < 0.4, "_rel": rel}
             else:
                 a0 = arrays[0]
                 d = rng.randrange(len(a0["axes"]))
                 # labels along the concatenation axis need not be related
-                yield {"op": "concatenate", "arrays": arrays, "axis": ["name", a0["axes"][d]["name"]] if rng.random() < 0.5 else ["pos", d if rng.random() < 0.6 else d - len(a0["axes"])],
-                       "align": doalign, "sort": doalign and rng.random() < 0.4, "_rel": rel}
+                return {"op": "concatenate", "arrays": arrays, "axis": ["name", a0["axes"][d]["name"]] if rng.random() < 0.5 else ["pos", d if rng.random() < 0.6 else d - len(a0["axes"])],
+                        "align": doalign, "sort": doalign and rng.random() < 0.4, "_rel": rel}
 
     def impl(self, c):
+        toks = core.AttrTokens()
         arrs = [core.build_array(a, k) for k, a in enumerate(c["arrays"])]
-        before = [core.obs_array(a) for a in arrs]
+        before = [core.obs_array(a, toks) for a in arrs]
         kw = {}
         if c["align"]:
             kw["align"] = True
             if c["sort"]:
                 kw["sort"] = True
+            if c.get("join"):
+                kw["join"] = c["join"]
 
         def run():
             if c["op"] == "stack":
                 keys = None if c["keys"] is None else [core.dec_label(k, c["keykind"]) for k in c["keys"]]
                 if c["container"] == "dict":
                     ks = keys if keys is not None else list(range(len(arrs)))
-                    arg = dict(zip(ks, arrs))
-                    return core.obs_array(da.stack(arg, axis=c["axis"], **kw))
+                    if c.get("explicit_keys"):
+                        arg = dict(zip(["k%d" % i for i in range(len(arrs))], arrs))
+                        kw["keys"] = keys
+                    else:
+                        arg = dict(zip(ks, arrs))
+                    return core.obs_array(da.stack(arg, axis=c["axis"], **kw), toks)
                 arg = list(arrs) if c["container"] == "list" else tuple(arrs)
                 if keys is not None:
-                    kw["keys"] = keys
-                return core.obs_array(da.stack(arg, axis=c["axis"], **kw))
-            return core.obs_array(da.concatenate(arrs, axis=c["axis"][1], **kw))
+                    kw["keys"] = core.label_array(c["keys"], c["keykind"]) if c.get("keys_as") == "ndarray" else keys
+                return core.obs_array(da.stack(arg, axis=c["axis"], **kw), toks)
+            arg = tuple(arrs) if c.get("container") == "tuple" else list(arrs)
+            if c.get("axis_default"):
+                return core.obs_array(da.concatenate(arg, **kw), toks)
+            return core.obs_array(da.concatenate(arg, axis=c["axis"][1], **kw), toks)
         out = core.guarded(run)
         out["inputs"] = before
-        if [core.obs_array(a) for a in arrs] != before:
+        if [core.obs_array(a, toks) for a in arrs] != before:
             out["operand_modified"] = True
         return out
 
     def request(self, c):
-        arrs = [core.lean_array(gen.clean(a), None) for a in c["arrays"]]
+        toks = core.AttrTokens()
+        arrs = [core.lean_array(gen.clean(a), toks) for a in c["arrays"]]
         if c["op"] == "stack":
             keys = c["keys"] if c["keys"] is not None else [["n", i, 1] for i in range(len(arrs))]
             return {"op": "stack", "arrays": arrs, "axis": c["axis"], "keys": keys, "keykind": c["keykind"],
@@ -217,6 +303,13 @@ class C12(Prop):
                 dims0 = io["inputs"][0]["dims"]
                 dim = c["axis"][1] if c["axis"][0] == "name" else dims0[c["axis"][1]]
                 prop_bad += check_concat(c, io["inputs"], io["ok"], dim)
+                if not c["align"] and not prop_bad:
+                    # 'the other axes unchanged': metadata included (the generator puts the same metadata on a dimension
+                    # of every input)
+                    a0 = {ax["name"]: ax for ax in io["inputs"][0]["axes"]}
+                    for ax in io["ok"]["axes"]:
+                        if ax["name"] != dim and ax.get("attrs") != a0[ax["name"]].get("attrs"):
+                            prop_bad.append("axes.attrs:secondary_changed")
             if io["ok"]["attrs"]:
                 prop_bad.append("attrs:not_dropped")
         else:
@@ -241,9 +334,16 @@ class C12(Prop):
 
     def features(self, c, io):
         dims = [tuple(ax["name"] for ax in a["axes"]) for a in c["arrays"]]
-        return {"outcome": "err:" + io["err"] if "err" in io else "ok", "op": c["op"], "n": len(c["arrays"]), "rel": c["_rel"],
-                "align": c["align"], "sort": c["sort"], "dims_reordered": len(set(dims)) > 1,
-                "container": c.get("container"), "rank": len(c["arrays"][0]["axes"])}
+        f = {"outcome": "err:" + io["err"] if "err" in io else "ok", "op": c["op"], "n": len(c["arrays"]), "rel": c["_rel"],
+             "align": c["align"], "sort": c["sort"], "dims_reordered": len(set(dims)) > 1,
+             "container": c.get("container") or "list", "rank": len(c["arrays"][0]["axes"]),
+             "with_attrs": bool(c.get("with_attrs")), "zero_length_axis": c.get("zero", "no"), "join_kw": c.get("join", "default")}
+        if c["op"] == "stack":
+            f["keys"] = ("none" if c["keys"] is None else c["keykind"]) + (":ndarray" if c.get("keys_as") == "ndarray" else "") \
+                + (":dict+keys=" if c.get("explicit_keys") else "")
+        else:
+            f["axis"] = "default" if c.get("axis_default") else (c["axis"][0] + ("<0" if c["axis"][0] == "pos" and c["axis"][1] < 0 else ""))
+        return f
 
     def size(self, c):
         return 50 * len(c["arrays"]) + sum(len(ax["labels"]) for a in c["arrays"] for ax in a["axes"])
